@@ -26,6 +26,7 @@ class Build:
         self.coq_log = ""
         self.failed_v = []        # .v files that failed to compile (relative to coq/)
         self.modelrun = None      # path of the extracted model driver, if it could be built
+        self.comborun = None      # extracted combination-parser model (Parser/Combo.v)
         self.obs = os.path.join(BIN, "obs")
         self.webobs = os.path.join(BIN, "webobs")
         self.wall = {}
@@ -103,20 +104,23 @@ def prepare(need_model=True, need_go=True, verbose=False):
         t0 = time.time()
         if need_model:
             srcs = [os.path.join(COQ, s) for s in coq_sources() if not s.startswith(("Props/", "Tie/"))]
-            srcs += [os.path.join(COQ, "Extract", "Extract.v")] + glob.glob(os.path.join(VERIF, "ocaml", "*.ml"))
+            srcs += [os.path.join(COQ, "Extract", "Extract.v"), os.path.join(COQ, "Extract", "ExtractCombo.v")] + glob.glob(os.path.join(VERIF, "ocaml", "*.ml"))
             key = _hash_files(srcs)
             d = os.path.join(CACHE, "ocaml", key)
             exe = os.path.join(d, "modelrun")
             if not os.path.exists(exe):
                 os.makedirs(d, exist_ok=True)
                 rc, log = sh("cp %s/Extract/Extract.v . && timeout 900 coqc -Q %s IGP Extract.v 2>&1 && cp %s/ocaml/*.ml . && "
-                             "timeout 900 ocamlfind ocamlopt -w -a model.mli model.ml glue.ml modelrun.ml -o modelrun 2>&1" % (COQ, COQ, VERIF), cwd=d, timeout=2000)
+                             "timeout 900 ocamlfind ocamlopt -w -a model.mli model.ml glue.ml modelrun.ml -o modelrun 2>&1 && "
+                             "cp %s/Extract/ExtractCombo.v . && timeout 900 coqc -Q %s IGP ExtractCombo.v 2>&1 && "
+                             "timeout 900 ocamlfind ocamlopt -w -a combo.mli combo.ml comborun.ml -o comborun 2>&1" % (COQ, COQ, VERIF, COQ, COQ), cwd=d, timeout=2000)
                 if rc != 0:
                     b.coq_log += "\n[extract/ocaml]\n" + log
                     if os.path.exists(exe):
                         os.remove(exe)
             if os.path.exists(exe):
                 b.modelrun = exe
+            b.comborun = os.path.join(d, "comborun") if os.path.exists(os.path.join(d, "comborun")) else None
         b.wall["extract"] = time.time() - t0
         # 4. Go harness against the working tree, hooks on
         t0 = time.time()
